@@ -11,6 +11,7 @@
 import FalconProofs.C07.FStep
 import FalconProofs.C07.Succs
 import FalconProofs.C07.Example
+import FalconProofs.C07.Extra
 
 namespace Falcon.C07
 open Falcon Falcon.Sem Falcon.Drv
@@ -294,6 +295,30 @@ theorem error_noedge (σ : State) (es : List Edge) (h2 : es.length ≠ 1)
   | [], _ => rfl
   | [x], h => exact absurd rfl h
   | x :: y :: zs, _ => exact firstEnabled_none hf
+
+/-- at the level of `Driver::step`: an empty block with no enabled out-edge -/
+theorem error_noedge_empty (P : Program) (l : Loc) (σ : State) (f : Function) (b : Block)
+    (ha : apply P l = .ok (.empty f b)) (h2 : (f.cfg.edgesOut b.index).length ≠ 1)
+    (hf : ∀ e ∈ f.cfg.edgesOut b.index, ∃ g c, e.cond = some g ∧ σ.evalIn g = .ok c ∧ c.val ≠ 1) :
+    step P (l, σ) = .err .noedge := step_noedge_empty P l σ f b ha h2 hf
+
+/-- … and the last instruction of a block: the operation was executed, yet its state is not returned -/
+theorem error_noedge_last (P : Program) (l : Loc) (σ σ' : State) (f : Function) (b : Block) (i : Instr)
+    (ha : apply P l = .ok (.instr f b i)) (hex : execute σ i.op = .ok (σ', .fallThrough))
+    (hfw : instrForward f b i = .ok (.edges (f.cfg.edgesOut b.index)))
+    (h2 : (f.cfg.edgesOut b.index).length ≠ 1)
+    (hf : ∀ e ∈ f.cfg.edgesOut b.index, ∃ g c, e.cond = some g ∧ σ'.evalIn g = .ok c ∧ c.val ≠ 1) :
+    step P (l, σ) = .err .noedge := step_noedge_last P l σ σ' f b i ha hex hfw h2 hf
+
+/-- conversely, on typed operations these are the ONLY errors `execute` reports: undefined scalar, zero
+    divisor, unmapped memory, intrinsic -/
+theorem error_kinds_only (σ : State) (op : Op) (ht : TypedOp σ op) (k : Err) (h : execute σ op = .err k) :
+    k = .scalar ∨ k = .div0 ∨ k = .unmapped ∨ k = .intrinsic := execute_err_kinds σ op ht k h
+
+/-- frame at the level of `Driver::step` (any program): the state changes only through the operation at the
+    location; moving along edges, out of empty blocks and to branch targets changes nothing -/
+theorem step_frame (P : Program) (l l' : Loc) (σ σ' : State) (h : step P (l, σ) = .ok (l', σ')) :
+    σ' = σ ∨ ∃ f b i s, apply P l = .ok (.instr f b i) ∧ execute σ i.op = .ok (σ', s) := step_state P l l' σ σ' h
 
 /-! ### the link to the function-level relation `FStep` (used by C10, C12, C13, C14, C17) -/
 
